@@ -193,8 +193,44 @@ Ltac cfin :=
   cbn [inner c_running c_closing c_stopped closers c_pc c_procs fch_closed timer_fired fired_early
        fatal_count tie reterr addcl closes run_rejected w_inner w_pc w_procs w_addcl w_closes
        closing_pc done_pc];
-  auto; try discriminate; try tauto; try (intros; discriminate); try (intro; congruence);
+  try assumption; try discriminate; try (intros; discriminate); auto;
+  try (let Hx := fresh in intros Hx; exfalso; exact Hx);
+  try (let Hx := fresh in intros Hx; exfalso; apply Hx; exact I);
+  try (let Hq := fresh in
+       intro Hq; match goal with Hr : _ = _ |- _ => rewrite Hr in Hq; discriminate Hq end);
   try (intros [?|?]; discriminate).
+
+Lemma nth_error_snoc {A} (l : list A) x c y :
+  nth_error (l ++ [x]) c = Some y -> nth_error l c = Some y \/ y = x.
+Proof.
+  intro H. destruct (Nat.lt_ge_cases c (length l)) as [Hlt|Hge].
+  - rewrite nth_error_app1 in H by auto. auto.
+  - rewrite nth_error_app2 in H by auto. destruct (c - length l) as [|k]; cbn in H.
+    + inversion H; auto.
+    + destruct k; discriminate.
+Qed.
+
+Lemma fatal_state_fresh cs : decidedb (fatal_state (map (fun c => mkc c CSpawned 0) cs)) = false.
+Proof. induction cs as [|c cs IH]; cbn; auto. destruct (is_fatal c); auto. Qed.
+
+Lemma setup_inner v bs i0 s1 y :
+  rinv v bs i0 ->
+  match r_runners i0 with
+  | [] => Some i0
+  | _ :: _ => match step_r v i0 (RAddCheck CloseRunner) with
+              | Some x => step_r v x (RAddAppend (length (r_adds i0)))
+              | None => None
+              end
+  end = Some s1 ->
+  step_r v s1 RRunCas = Some y -> rinv v bs y.
+Proof.
+  intros I H1 H2.
+  assert (I1 : rinv v bs s1).
+  { destruct (r_runners i0); [inv H1; auto|].
+    destruct (step_r v i0 (RAddCheck CloseRunner)) as [x|] eqn:Ex; try discriminate.
+    eapply rinv_step; [eapply rinv_step; [exact I | exact Ex] | exact H1]. }
+  eapply rinv_step; eauto.
+Qed.
 
 Lemma cinv_step v grace bs s e s' : cinv v grace bs s -> step_c v s e = Some s' -> cinv v grace bs s'.
 Proof.
@@ -206,3 +242,212 @@ Proof.
     destruct (c_running s) eqn:Er; inv H.
     + constructor; cfin.
     + destruct (Inot eq_refl) as [Hpc Hst]. constructor; cfin.
+      * intros _. apply Iearly. rewrite Hpc. cbn. tauto.
+      * intros _. apply Ireterr. rewrite Hpc. cbn. tauto.
+  - (* CSetup *)
+    destruct (c_pc s) eqn:Epc; try discriminate.
+    assert (Hrun : c_running s = true) by (apply Irun; discriminate).
+    match type of H with match ?m with _ => _ end = _ => destruct m as [x|] eqn:Ex; try discriminate end.
+    destruct (step_r v x RRunCas) as [y|] eqn:Ey; inv H.
+    constructor; cfin.
+    + eapply setup_inner; eauto.
+    + intro Hs; destruct (Istop Hs) as [Hx|Hx]; [discriminate Hx | cbn in Hx; tauto].
+  - (* CInner *)
+    destruct (inner_allowed e) eqn:Eal; try discriminate.
+    destruct (step_r v (inner s) e) as [x|] eqn:Ex; inv H.
+    constructor; cfin.
+    + eapply rinv_step; eauto.
+    + intro Hpc. destruct (Iidle Hpc). eapply step_r_idle with (ev := e); eauto.
+    + intros n i errs Hpc. destruct (Icoll n i errs Hpc) as [? [? [rerrs [Hr HP]]]].
+      repeat split; auto. exists rerrs. split; auto. eapply step_r_returned with (ev := e); eauto.
+    + intros errs Hpc. destruct (Idn errs Hpc) as [? [rerrs [Hr HP]]].
+      split; auto. exists rerrs. split; auto. eapply step_r_returned with (ev := e); eauto.
+  - (* CClosing *)
+    destruct (c_pc s) eqn:Epc; try discriminate.
+    destruct (r_pc (inner s)) as [| | |rerrs] eqn:Eipc; try discriminate. inv H.
+    assert (Hrun : c_running s = true) by (apply Irun; discriminate).
+    destruct (Iearly ltac:(cbn; tauto)) as [Hnp Hncl].
+    constructor; cfin.
+    + intro Hs; destruct (Istop Hs) as [Hx|Hx]; [discriminate Hx | cbn in Hx; tauto].
+    + exists []. rewrite map_map. cbn. rewrite map_id, app_nil_r. auto.
+    + intros n i errs Hpc. inv Hpc. rewrite map_length, ncoll_fresh.
+      repeat split; auto. exists errs. split; auto. rewrite ccollected_fresh, app_nil_r. auto.
+    + intros p Hp. apply in_map_iff in Hp. destruct Hp as [c [<- _]]. reflexivity.
+    + intros _. apply J3. rewrite Hnp. reflexivity.
+    + rewrite fatal_state_fresh. discriminate.
+  - (* CCloserStart *)
+    destruct (nth_error (c_procs s) j) as [p|] eqn:Ep; try discriminate.
+    destruct (c_st p) eqn:Est; try discriminate. inv H.
+    assert (Hf : forall q, c_cl (cstart q) = c_cl q) by reflexivity.
+    assert (Hnc : ncoll (upd j cstart (c_procs s)) = ncoll (c_procs s) /\
+                  ccollected (upd j cstart (c_procs s)) = ccollected (c_procs s)).
+    { eapply upd_nochange; eauto; cbn; congruence. }
+    destruct Hnc as [Hn1 Hn2].
+    assert (Hfs : decidedb (fatal_state (upd j cstart (c_procs s))) = decidedb (fatal_state (c_procs s))).
+    { eapply fatal_state_upd; eauto. cbn. rewrite Est. reflexivity. }
+    constructor; cfin; rewrite ?Hfs, ?Hn1, ?Hn2, ?upd_length, ?map_cl_upd by auto; auto.
+    + intro Hn. destruct (Iearly Hn) as [Hnp _]. rewrite Hnp in Ep. destruct j; discriminate.
+    + intros errs Hpc. destruct (Idn errs Hpc) as [Ha _].
+      specialize (Ha p (nth_error_In _ _ Ep)). congruence.
+    + intros q Hq. apply in_upd in Hq. destruct Hq as [Hq|[p' [E ->]]]; [auto|].
+      rewrite Ep in E; inv E. cbn. rewrite (Istarts p' (nth_error_In _ _ Ep)), Est. reflexivity.
+  - (* CCloserReturn *)
+    destruct (nth_error (c_procs s) j) as [p|] eqn:Ep; try discriminate.
+    destruct (c_st p) eqn:Est; try discriminate.
+    destruct (c_cl p) as [|r] eqn:Ecl; try discriminate. inv H.
+    assert (Hf : forall q, c_cl (cset_st CRet q) = c_cl q) by reflexivity.
+    assert (Hnc : ncoll (upd j (cset_st CRet) (c_procs s)) = ncoll (c_procs s) /\
+                  ccollected (upd j (cset_st CRet) (c_procs s)) = ccollected (c_procs s)).
+    { eapply upd_nochange; eauto; cbn; congruence. }
+    destruct Hnc as [Hn1 Hn2].
+    assert (Hfs : fatal_state (upd j (cset_st CRet) (c_procs s)) = fatal_state (c_procs s)).
+    { eapply fatal_state_upd_user; eauto. rewrite Ecl. reflexivity. }
+    constructor; cfin; rewrite ?Hfs, ?Hn1, ?Hn2, ?upd_length, ?map_cl_upd by auto; auto.
+    + intro Hn. destruct (Iearly Hn) as [Hnp _]. rewrite Hnp in Ep. destruct j; discriminate.
+    + intros errs Hpc. destruct (Idn errs Hpc) as [Ha _].
+      specialize (Ha p (nth_error_In _ _ Ep)). congruence.
+    + intros q Hq. apply in_upd in Hq. destruct Hq as [Hq|[p' [E ->]]]; [auto|].
+      rewrite Ep in E; inv E. cbn. rewrite (Istarts p' (nth_error_In _ _ Ep)), Est. reflexivity.
+  - (* CFire *)
+    destruct (find_fatal_running (c_procs s) 0) as [j|] eqn:Ef; try discriminate.
+    destruct (timer_fired s) eqn:Etf; inv H.
+    destruct (find_fatal_running_spec _ _ _ Ef) as [i [p [_ [Ep [Est [Hfs _]]]]]].
+    constructor; cfin.
+    intros _ ->. reflexivity.
+  - (* CFatal *)
+    destruct (find_fatal_running (c_procs s) 0) as [j|] eqn:Ef; try discriminate.
+    destruct (timer_fired s) eqn:Etf; inv H.
+    destruct (find_fatal_running_spec _ _ _ Ef) as [i [p [Ej [Ep [Est [Hfs Hfs']]]]]].
+    cbn in Ej. subst j.
+    assert (Hf : forall q, c_cl (cset_st CRet q) = c_cl q) by reflexivity.
+    assert (Hnc : ncoll (upd i (cset_st CRet) (c_procs s)) = ncoll (c_procs s) /\
+                  ccollected (upd i (cset_st CRet) (c_procs s)) = ccollected (c_procs s)).
+    { eapply upd_nochange; eauto; cbn; congruence. }
+    destruct Hnc as [Hn1 Hn2].
+    destruct (J3 ltac:(rewrite Hfs; reflexivity)) as [Hfc Htie].
+    constructor; cfin; rewrite ?Hfs', ?Hn1, ?Hn2, ?upd_length, ?map_cl_upd by auto; auto.
+    + intro Hn. destruct (Iearly Hn) as [Hnp _]. rewrite Hnp in Ep. destruct i; discriminate.
+    + intros errs Hpc. destruct (Idn errs Hpc) as [Ha _].
+      specialize (Ha p (nth_error_In _ _ Ep)). congruence.
+    + intros q Hq. apply in_upd in Hq. destruct Hq as [Hq|[p' [E ->]]]; [auto|].
+      rewrite Ep in E; inv E. cbn. rewrite (Istarts p' (nth_error_In _ _ Ep)), Est. reflexivity.
+    + intros _. rewrite Hfc, Htie. cbn [orb]. split; [lia|]. split; [auto|].
+      intro Hfch. split; [|reflexivity]. intros _. apply J2; auto.
+  - (* CFatalQuit *)
+    destruct (find_fatal_running (c_procs s) 0) as [j|] eqn:Ef; try discriminate.
+    destruct (fch_closed s) eqn:Efch; inv H.
+    destruct (find_fatal_running_spec _ _ _ Ef) as [i [p [Ej [Ep [Est [Hfs Hfs']]]]]].
+    cbn in Ej. subst j.
+    assert (Hf : forall q, c_cl (cset_st CRet q) = c_cl q) by reflexivity.
+    assert (Hnc : ncoll (upd i (cset_st CRet) (c_procs s)) = ncoll (c_procs s) /\
+                  ccollected (upd i (cset_st CRet) (c_procs s)) = ccollected (c_procs s)).
+    { eapply upd_nochange; eauto; cbn; congruence. }
+    destruct Hnc as [Hn1 Hn2].
+    destruct (J3 ltac:(rewrite Hfs; reflexivity)) as [Hfc Htie].
+    constructor; cfin; rewrite ?Hfs', ?Hn1, ?Hn2, ?upd_length, ?map_cl_upd by auto; auto.
+    + intro Hn. destruct (Iearly Hn) as [Hnp _]. rewrite Hnp in Ep. destruct i; discriminate.
+    + intros errs Hpc. destruct (Idn errs Hpc) as [Ha _].
+      specialize (Ha p (nth_error_In _ _ Ep)). congruence.
+    + intros q Hq. apply in_upd in Hq. destruct Hq as [Hq|[p' [E ->]]]; [auto|].
+      rewrite Ep in E; inv E. cbn. rewrite (Istarts p' (nth_error_In _ _ Ep)), Est. reflexivity.
+    + intros _. rewrite Hfc, Htie. cbn [orb]. split; [lia|]. split; [intro; lia|].
+      intro Htf. split; [intro; lia|]. intro Hfe. apply J1 in Hfe. congruence.
+  - (* CCloseFatalCh *)
+    destruct (c_pc s) as [| | |n i errs|] eqn:Epc; try discriminate.
+    destruct ((i =? n)%nat && negb (fch_closed s)); inv H.
+    assert (Hrun : c_running s = true) by (apply Irun; discriminate).
+    constructor; cfin.
+  - (* CCollectCloser *)
+    destruct (c_pc s) as [| | |n i errs|] eqn:Epc; try discriminate.
+    destruct (nth_error (c_procs s) j) as [p|] eqn:Ep; try discriminate.
+    destruct (c_st p) eqn:Est; try discriminate.
+    destruct ((i <=? n)%nat && (negb (i =? n)%nat || fch_closed s)); inv H.
+    assert (Hrun : c_running s = true) by (apply Irun; discriminate).
+    assert (Hf : forall q, c_cl (cset_st CColl q) = c_cl q) by reflexivity.
+    assert (Hnc : ncoll (upd j (cset_st CColl) (c_procs s)) = S (ncoll (c_procs s)) /\
+                  Permutation (ccollected (upd j (cset_st CColl) (c_procs s)))
+                              (ccollected (c_procs s) ++ olist (cl_result (c_cl p)))).
+    { eapply upd_coll; eauto; congruence. }
+    destruct Hnc as [Hn1 Hn2].
+    assert (Hfs : decidedb (fatal_state (upd j (cset_st CColl) (c_procs s))) = decidedb (fatal_state (c_procs s))).
+    { eapply fatal_state_upd; eauto. cbn. rewrite Est. reflexivity. }
+    destruct (Icoll n i errs eq_refl) as [Hn [Hi [rerrs [Hr HP]]]].
+    constructor; cfin; rewrite ?Hfs, ?upd_length, ?map_cl_upd by auto; auto.
+    + intro Hs; destruct (Istop Hs) as [Hx|Hx]; [discriminate Hx | cbn in Hx; tauto].
+    + intros n0 i0 errs0 Hpc. inv Hpc. rewrite Hn1. repeat split; auto.
+      exists rerrs. split; auto.
+      eapply Permutation_trans; [apply Permutation_app_tail; exact HP|].
+      rewrite <- app_assoc. apply Permutation_app_head. apply Permutation_sym. exact Hn2.
+    + intros q Hq. apply in_upd in Hq. destruct Hq as [Hq|[p' [E ->]]]; [auto|].
+      rewrite Ep in E; inv E. cbn. rewrite (Istarts p' (nth_error_In _ _ Ep)), Est. reflexivity.
+  - (* CRunReturn *)
+    destruct (c_pc s) as [| | |n i errs|] eqn:Epc; try discriminate.
+    destruct (i <=? n)%nat eqn:Ein; inv H.
+    assert (Hrun : c_running s = true) by (apply Irun; discriminate).
+    destruct (Icoll n i errs eq_refl) as [Hn [Hi [rerrs [Hr HP]]]].
+    apply Nat.leb_gt in Ein.
+    constructor; cfin.
+    + intros e Hpc. inv Hpc. auto.
+    + intros e Hpc. inv Hpc. split; [apply ncoll_all; lia|]. exists rerrs. auto.
+    + intros c e Hc. destruct (Ikret c e Hc) as [Hs _].
+      destruct (Istop Hs) as [Hx|Hx]; [discriminate Hx | cbn in Hx; tauto].
+  - (* CCloseBegin *)
+    destruct (step_r v (inner s) RCloseCh) as [x|] eqn:Ex; inv H.
+    constructor; cfin.
+    + eapply rinv_step; eauto.
+    + intro Hpc. destruct (Iidle Hpc). eapply step_r_idle with (ev := RCloseCh); eauto.
+    + intros n i errs Hpc. destruct (Icoll n i errs Hpc) as [? [? [rerrs [Hr HP]]]].
+      repeat split; auto. exists rerrs. split; auto.
+      eapply step_r_returned with (ev := RCloseCh); eauto.
+    + intros errs Hpc. destruct (Idn errs Hpc) as [? [rerrs [Hr HP]]].
+      split; auto. exists rerrs. split; auto.
+      eapply step_r_returned with (ev := RCloseCh); eauto.
+    + intros c e Hc. apply nth_error_snoc in Hc. destruct Hc as [Hc|Hc]; [eauto | discriminate].
+  - (* CCloseStep *)
+    destruct (nth_error (closes s) c) as [[| |e0]|] eqn:Ec; try discriminate.
+    + inv H. constructor; cfin.
+      * destruct (c_running s) eqn:Er; auto. intros _. left. apply (Inot eq_refl).
+      * intros e Hpc. rewrite (Irun ltac:(rewrite Hpc; discriminate)). auto.
+      * intros c0 e Hc. destruct (Nat.eq_dec c c0) as [<-|Hne].
+        { rewrite (nth_error_upd_same _ _ _ _ Ec) in Hc. discriminate. }
+        rewrite nth_error_upd_other in Hc by auto. destruct (Ikret c0 e Hc) as [Hs He].
+        split; auto. destruct (c_running s) eqn:Er; auto.
+    + assert (Es : c_stopped s = true) by (destruct (c_stopped s); [reflexivity|discriminate]).
+      rewrite Es in H. inv H. constructor; cfin.
+      intros c0 e Hc. destruct (Nat.eq_dec c c0) as [<-|Hne].
+      { rewrite (nth_error_upd_same _ _ _ _ Ec) in Hc. inv Hc. auto. }
+      rewrite nth_error_upd_other in Hc by auto. eauto.
+  - (* CAddCloserCheck *)
+    inv H. constructor; cfin.
+    intros a idx Ha. apply nth_error_snoc in Ha. destruct Ha as [Ha|Ha]; [eauto|].
+    destruct (c_closing s); discriminate.
+  - (* CAddCloserAppend *)
+    destruct (nth_error (addcl s) a) as [[r|idx0|]|] eqn:Ea; try discriminate.
+    destruct (lock_held s) eqn:El; try discriminate.
+    destruct (is_fixed v && c_closing s) eqn:Efc; inv H.
+    + constructor; cfin.
+      intros a0 idx Ha. destruct (Nat.eq_dec a a0) as [<-|Hne].
+      { rewrite (nth_error_upd_same _ _ _ _ Ea) in Ha. discriminate. }
+      rewrite nth_error_upd_other in Ha by auto. eauto.
+    + constructor; cfin.
+      * destruct Iclosers as [tl [E Hf]]. exists (tl ++ [User r]). split.
+        { rewrite E, app_assoc. reflexivity. }
+        { intros -> Hc. rewrite Hc in Efc. discriminate. }
+      * intros a0 idx Ha. rewrite app_length. cbn [length]. destruct (Nat.eq_dec a a0) as [<-|Hne].
+        { rewrite (nth_error_upd_same _ _ _ _ Ea) in Ha. inv Ha. lia. }
+        rewrite nth_error_upd_other in Ha by auto. apply Iacc in Ha. lia.
+      * intros Hg c Hc. apply in_app_or in Hc. destruct Hc as [Hc|[<-|[]]]; [eauto | reflexivity].
+Qed.
+
+Lemma cinv_run v grace bs es : forall s s',
+  cinv v grace bs s -> run_c v s es = Some s' -> cinv v grace bs s'.
+Proof.
+  induction es as [|e es IH]; intros s s' I H; cbn in H.
+  - inv H; auto.
+  - destruct (step_c v s e) as [s1|] eqn:E; try discriminate.
+    eapply IH; [eapply cinv_step; eauto | eauto].
+Qed.
+
+Lemma cinv_reach v grace bs cls es s :
+  run_c v (new_cm grace bs cls) es = Some s -> cinv v grace bs s.
+Proof. apply cinv_run, cinv_init. Qed.
